@@ -37,7 +37,7 @@ fn show(o: &Outcome) -> String {
     }
 }
 
-fn history(src: &mut Src, st: &mut Stats, _env: &Env) -> CaseResult {
+fn history_body(src: &mut Src, st: &mut Stats) -> CaseResult {
     // pools
     let mut exprs: Vec<String> = vec![];
     for _ in 0..6 {
@@ -52,10 +52,17 @@ fn history(src: &mut Src, st: &mut Stats, _env: &Env) -> CaseResult {
                 let a = gen_sentence(src, st, 2).unwrap_or_else(|| "a".into());
                 Some(mutate(&a, "b", src).0)
             }
-            4 => Some(src.pick(&["nope(@)", "abs('x')", "nums[::0]", "sort_by(objs, &to_array(n))", "map(&abs(s), objs)", "objs[*].abs(s)", "length(n)", "sum(strs)"]).to_string()),
+            4 => Some(src.pick(&["s == 'a b'", "o.\"k k\"", "strs[?@ == 'a b']", "`{\"a b\": 1}`.\"a b\"", "join(' , ', strs)", "nope(@)", "abs('x')", "nums[::0]", "sort_by(objs, &to_array(n))", "map(&abs(s), objs)", "objs[*].abs(s)", "length(n)", "sum(strs)"]).to_string()),
             _ => Some(src.pick(&["sort_by(objs, &k)", "max_by(objs, &n)", "map(&length(s), objs)", "objs[?n > `0`].s", "nums[::-1]", "merge(o, o2)", "@", "keys(o)"]).to_string()),
         };
-        exprs.push(e.unwrap_or_else(|| "@".to_string()));
+        let mut e = e.unwrap_or_else(|| "@".to_string());
+        // often a near-duplicate of an expression already in the pool: the same text with a
+        // different amount of whitespace inside a literal, another letter case, another digit ...
+        if !exprs.is_empty() && src.chance(90) {
+            let base = exprs[src.below(exprs.len())].clone();
+            e = crate::syn::near_duplicate(&base, src);
+        }
+        exprs.push(e);
     }
     let mut docs: Vec<J> = vec![];
     for i in 0..5 {
@@ -215,6 +222,175 @@ fn history(src: &mut Src, st: &mut Stats, _env: &Env) -> CaseResult {
     Ok(())
 }
 
+fn hex(data: &[u8]) -> String {
+    data.iter().map(|b| format!("{:02x}", b)).collect()
+}
+
+fn unhex(s: &str) -> Vec<u8> {
+    (0..s.len() / 2).filter_map(|i| u8::from_str_radix(&s[2 * i..2 * i + 2], 16).ok()).collect()
+}
+
+/// Run one history on a fresh thread (thread-local state of the library starts empty).
+fn run_fresh_thread(bytes: Vec<u8>, st: &mut Stats) -> CaseResult {
+    let frozen = st.frozen;
+    let h = std::thread::Builder::new().stack_size(256 << 20).spawn(move || {
+        let mut local = Stats::new();
+        local.frozen = frozen;
+        let mut src = Src::new(&bytes);
+        let r = catch(std::panic::AssertUnwindSafe(|| history_body(&mut src, &mut local)));
+        (r, local)
+    });
+    match h.map(|h| h.join()) {
+        Ok(Ok((Ok(r), local))) => {
+            st.merge(local);
+            r
+        }
+        Ok(Ok((Err(p), _))) => Err(Failure::new("history", "panic", p, json!({}))),
+        _ => Err(Failure::new("history", "harness-thread", "could not run the history thread".into(), json!({}))),
+    }
+}
+
+/// Executed in a fresh child process: run the given histories one after the
+/// other on one thread; print the failure of the LAST one, if it fails.
+pub fn child_main() {
+    install_panic_hook();
+    let mut input = String::new();
+    let _ = std::io::Read::read_to_string(&mut std::io::stdin(), &mut input);
+    let v: serde_json::Value = serde_json::from_str(&input).unwrap_or(json!({}));
+    let seq: Vec<Vec<u8>> = v["sequence"].as_array().cloned().unwrap_or_default().iter().map(|x| unhex(x.as_str().unwrap_or(""))).collect();
+    let mut last: CaseResult = Ok(());
+    for bytes in &seq {
+        let mut st = Stats::new();
+        let mut src = Src::new(bytes);
+        last = match catch(std::panic::AssertUnwindSafe(|| history_body(&mut src, &mut st))) {
+            Ok(r) => r,
+            Err(p) => Err(Failure::new("history", "panic", p, json!({}))),
+        };
+    }
+    match last {
+        Ok(()) => println!("{}", json!({"ok": true})),
+        Err(f) => println!("{}", json!({"ok": false, "sig": f.sig, "message": f.message, "case": f.case})),
+    }
+}
+
+/// Some(failure) if the last history of the sequence fails in a fresh process.
+fn confirm_in_child(seq: &[Vec<u8>]) -> Result<Option<Failure>, String> {
+    use std::io::Write;
+    let exe = std::env::current_exe().map_err(|e| e.to_string())?;
+    let mut child = std::process::Command::new(exe)
+        .arg("c13-child")
+        .stdin(std::process::Stdio::piped())
+        .stdout(std::process::Stdio::piped())
+        .stderr(std::process::Stdio::null())
+        .spawn()
+        .map_err(|e| e.to_string())?;
+    let payload = json!({"sequence": seq.iter().map(|b| hex(b)).collect::<Vec<_>>()}).to_string();
+    {
+        let mut si = child.stdin.take().unwrap();
+        let _ = si.write_all(payload.as_bytes());
+    }
+    let out = child.wait_with_output().map_err(|e| e.to_string())?;
+    if !out.status.success() {
+        return Ok(Some(Failure::new("history", "crash", format!("child process died: {}", out.status), json!({}))));
+    }
+    let v: serde_json::Value = serde_json::from_str(String::from_utf8_lossy(&out.stdout).trim()).map_err(|e| e.to_string())?;
+    if v["ok"].as_bool() == Some(true) {
+        Ok(None)
+    } else {
+        Ok(Some(Failure::new("history", v["sig"].as_str().unwrap_or("?"), v["message"].as_str().unwrap_or("").to_string(), v["case"].clone())))
+    }
+}
+
+thread_local! {
+    /// every history this runner thread has executed so far, in order
+    static EXECUTED: std::cell::RefCell<Vec<Vec<u8>>> = std::cell::RefCell::new(vec![]);
+}
+
+fn history(src: &mut Src, st: &mut Stats, _env: &Env) -> CaseResult {
+    // take the whole choice sequence of this case
+    let mut bytes = vec![];
+    while !src.exhausted() {
+        bytes.push(src.byte());
+    }
+    EXECUTED.with(|e| e.borrow_mut().push(bytes.clone()));
+    let fail = match run_fresh_thread(bytes.clone(), st) {
+        Ok(()) => return Ok(()),
+        Err(f) => f,
+    };
+    if fail.sig.starts_with("harness-") {
+        return Err(fail);
+    }
+    // 1. a standalone reproducer?  (fresh process, this history alone)
+    match confirm_in_child(&[bytes.clone()]) {
+        Ok(Some(f)) => return Err(f),
+        Ok(None) => {}
+        Err(m) => return Err(Failure::new("history", "harness-child", m, json!({}))),
+    }
+    // 2. the outcome depends on histories executed earlier in this process:
+    //    find a sequence of earlier histories that reproduces it in a fresh process
+    let all: Vec<Vec<u8>> = EXECUTED.with(|e| e.borrow().clone());
+    let mut seq = all;
+    match confirm_in_child(&seq) {
+        Ok(Some(_)) => {
+            // drop earlier histories in chunks while the last one still fails
+            let mut chunk = (seq.len() / 2).max(1);
+            let mut budget = 60;
+            while budget > 0 {
+                let mut i = 0;
+                while i + 1 < seq.len() && budget > 0 {
+                    let end = (i + chunk).min(seq.len() - 1);
+                    let mut cand = seq.clone();
+                    cand.drain(i..end);
+                    budget -= 1;
+                    if matches!(confirm_in_child(&cand), Ok(Some(_))) {
+                        seq = cand;
+                    } else {
+                        i += chunk;
+                    }
+                }
+                if chunk == 1 {
+                    break;
+                }
+                chunk /= 2;
+            }
+            let case = json!({"sequence": seq.iter().map(|b| hex(b)).collect::<Vec<_>>()});
+            let mut f = Failure::new(
+                "history",
+                "outcome-depends-on-earlier-histories",
+                format!("{} -- only after {} earlier histories were executed in the same process (thread-local or static state survives between calls)", fail.message, seq.len() - 1),
+                json!({"last_history": fail.case, "earlier_histories": seq.len() - 1}),
+            );
+            f.replay_override = Some(("sequence".to_string(), json!({"kind": "case", "case": case})));
+            Err(f)
+        }
+        _ => {
+            // not reproducible from this runner's own stream (state shared between threads):
+            // still a dependence on something other than the inputs
+            let mut f = fail;
+            f.sig = "outcome-depends-on-earlier-histories".into();
+            Err(f)
+        }
+    }
+}
+
+fn no_run(_env: &Env, _st: &mut Stats) -> Vec<Failure> {
+    vec![]
+}
+
+fn replay_sequence(case: &serde_json::Value, _env: &Env) -> CaseResult {
+    let seq: Vec<Vec<u8>> = case["sequence"].as_array().cloned().unwrap_or_default().iter().map(|x| unhex(x.as_str().unwrap_or(""))).collect();
+    match confirm_in_child(&seq) {
+        Ok(None) => Ok(()),
+        Ok(Some(mut f)) => {
+            if seq.len() > 1 {
+                f.sig = "outcome-depends-on-earlier-histories".into();
+            }
+            Err(f)
+        }
+        Err(m) => Err(Failure::new("sequence", "harness-child", m, json!({}))),
+    }
+}
+
 pub fn property() -> Property {
     Property {
         id: "C13",
@@ -223,6 +399,10 @@ pub fn property() -> Property {
             "the first result of a pair is additionally compared with the reference evaluation unless the reference flags the case as one with several valid answers".into(),
             "all operations of one history run on one thread against the shared default runtime".into(),
         ],
-        subs: vec![Sub::Bytes(BytesSub { name: "history", f: history, max_len: 4000, quick: Budget { threads: 8, cases: 1500 }, thorough: Budget { threads: 16, cases: 60_000 } })],
+        minimise: None,
+        subs: vec![
+            Sub::Bytes(BytesSub { name: "history", f: history, max_len: 4000, quick: Budget { threads: 8, cases: 1500 }, thorough: Budget { threads: 16, cases: 60_000 }, keep_unreproducible: true }),
+            Sub::Custom(CustomSub { name: "sequence", run: no_run, replay: replay_sequence }),
+        ],
     }
 }
